@@ -15,7 +15,7 @@ func NewWorld(r *R) *World {
 	// struct interface
 	si := &Interface{Name: "SI0", Default: map[string]bool{}}
 	si.Funcs = append(si.Funcs,
-		&Func{Name: "sig0", Params: []Param{{"x", TInt}}, Ret: TInt, Pre: "x > -1000000", Post: "result == result", Access: "access(all)"},
+		&Func{Name: "sig0", Params: []Param{{"x", TInt}}, Ret: TInt, Pre: "x > -1000000", Post: "before(x) == x && result == result", Access: "access(all)"},
 		&Func{Name: "dflt", Ret: TInt, View: true, Body: "return 7", Access: "access(all)"},
 	)
 	si.Default["dflt"] = true
@@ -52,11 +52,13 @@ func NewWorld(r *R) *World {
 		)
 		if i == 0 || r.IntN(2) == 0 {
 			c.Conforms = append(c.Conforms, si)
-			c.Funcs = append(c.Funcs, &Func{Name: "sig0", Params: []Param{{"x", TInt}}, Ret: TInt, Body: "return x + self.a", Access: "access(all)"})
+			c.Funcs = append(c.Funcs, &Func{Name: "sig0", Params: []Param{{"y", TInt}}, Ret: TInt, Body: "return y + self.a", Access: "access(all)"})
 			if r.IntN(2) == 0 {
 				c.Funcs = append(c.Funcs, &Func{Name: "dflt", Ret: TInt, View: true, Body: "return self.a + 100", Access: "access(all)"})
 			}
 		}
+		// a closure that captures self and escapes the method
+		c.Extra = "access(all) fun mk(): fun(Int): Int {\n    return fun (d: Int): Int { return self.a + d + self.getA() }\n}"
 		w.Structs = append(w.Structs, c)
 	}
 
@@ -222,6 +224,11 @@ func (w *World) Decls(indent string) string {
 		fmt.Fprintf(&sb, "%s    }\n", indent)
 		for _, f := range c.Funcs {
 			sb.WriteString(funcSrc(f, indent+"    ", true))
+		}
+		if c.Extra != "" {
+			for _, l := range strings.Split(c.Extra, "\n") {
+				sb.WriteString(indent + "    " + l + "\n")
+			}
 		}
 		fmt.Fprintf(&sb, "%s}\n", indent)
 	}
